@@ -193,6 +193,18 @@ func (c08) Run(c *Ctx, i int) CaseResult {
 	case !valid && perr == nil:
 		bad("L0.plan-total", "the query does not validate against the merged schema but a plan was returned")
 	}
+	if valid && perr == nil && plans != nil && f.Locations != nil {
+		// L1: the plan against the planner model (whose error cases Props.C08 classifies)
+		if doc, errs := gqlparser.LoadQuery(f.Merged, in.Query); errs == nil {
+			what, model, impl, err := PlanCorrRaw(c, doc, f.Locations, in.Spec.Priorities, in.Spec.Order, plans)
+			if err != nil {
+				res.Fails = append(res.Fails, Failure{Channel: "harness", Classifier: "harness-error", What: err.Error(), Input: in})
+			} else if what != "" {
+				res.Fails = append(res.Fails, Failure{Channel: "L1.plan", Classifier: "unclassified", What: what, Input: in, Expected: model,
+					Observed: map[string]interface{}{"steps": impl, "plan": PlanText(plans)}})
+			}
+		}
+	}
 	if i < len(fixed) && pc.Valid != valid {
 		bad("harness", fmt.Sprintf("fixed case expected valid=%v, the validator says %v", pc.Valid, valid))
 	}
